@@ -185,6 +185,9 @@ func (e *refEval) eval(n *ref.Node) (MV, error) {
 		}
 		return mvNull, errUnspec
 	case "call":
+		if n.Kids[0].K == "id" && n.Kids[0].S == "nofn" && len(n.Kids) == 1 && !n.Spread {
+			return mvNull, errModel // calling a name that is not defined: an error (C03), nothing else happens
+		}
 		if n.Kids[0].K != "id" || n.Kids[0].S != "rec" || len(n.Kids) < 2 || n.Spread {
 			return mvNull, errUnspec
 		}
@@ -300,6 +303,10 @@ func (g *subGen) intExpr(d int) *ref.Node {
 	case 7:
 		return ref.Bin(",", g.anyExpr(d-1), g.intExpr(d-1))
 	default:
+		if g.r.Intn(6) == 0 {
+			// an assignment whose right-hand side fails: the local keeps its value
+			return ref.Bin("=", ref.ID(g.pick(g.IntLocals)), ref.Bin("+", g.intExpr(0), ref.Call(ref.ID("nofn"), false)))
+		}
 		return ref.Bin("+", ref.Bin("=", ref.ID(g.pick(g.IntLocals)), g.intExpr(d-1)), ref.ID(g.pick(g.IntLocals)))
 	}
 }
